@@ -126,3 +126,65 @@ func lemma_C10_bool_never_ordered(op string, x, y bool) bool {
 //@ loop 0 invariant prefix: forall j int :: 0 <= j && j < i ==> rval[j] == cval[j]
 //@ loop 1 invariant i-range: 0 <= i#1
 //@ loop 1 invariant prefix: forall j int :: 0 <= j && j < i#1 ==> rval[j] == cval[j]
+
+// ---- to-many relationships: compared as sorted sequences, never ordered ----
+
+//@ spec sameSeq(a []string, b []string) = len(a) == len(b) && (forall i int :: 0 <= i && i < len(a) ==> a[i] == b[i])
+
+//@ func checkSlice
+//@ props C10
+//@ modifies heap[string]
+//@ ensures unordered: op != "=" && op != "!=" ==> !result
+//@ ensures eq: op == "=" ==> result == sameSeq(rval, cval)
+//@ ensures ne: op == "!=" ==> result == !sameSeq(rval, cval)
+//@ loop 0 invariant i-range: 0 <= i
+//@ loop 0 invariant prefix: equal && (forall j int :: 0 <= j && j < i ==> rval[j] == cval[j])
+
+// ---- filter trees ----
+//
+// fieldVal is the value IsAllowed compares: the relationship's value if the
+// field is a relationship, else the attribute's value, else nil.
+//@ spec fieldVal(res Resource, name string) = ite(name in R_rels($rh, res), R_get($rh, res, name), ite(name in R_attrs($rh, res), R_get($rh, res, name), nil))
+//@ spec children(f *Filter) = sl(f.Val, type[[]*Filter])
+
+// allowed is the verdict function "the tree read as logic"; wt is the
+// well-typedness of a filter tree against a resource (the property's domain).
+// Both are defined by one-level unfolding (allowedDef / wtDef below); the
+// unfolding of the node under verification is assumed at entry (a definition,
+// not a fact about the code), the unfolding of its children comes from the
+// contract of the recursive call.
+//@ uninterp allowed(`(Array Int S_Filter)`, `(Array Int Int)`, `(Array Int String)`, `Int`, *Filter, Resource) bool
+//@ uninterp wt(`(Array Int S_Filter)`, `(Array Int Int)`, `(Array Int String)`, `Int`, *Filter, Resource) bool
+//@ spec allowedNow(f *Filter, res Resource) = allowed(heap[Filter], heap[*Filter], heap[string], $rh, f, res)
+//@ spec wtNow(f *Filter, res Resource) = wt(heap[Filter], heap[*Filter], heap[string], $rh, f, res)
+
+//@ spec isCmp(op string) = op != "and" && op != "or" && op != "in" && op != "has"
+//@ spec cmpSem(op string, a any, b any) = cmpSemFull(op, a, b)
+
+//@ spec wtDef(f *Filter, res Resource) = f != nil && dyn(res) != 0
+//@   | && (f.Op == "and" || f.Op == "or" ==> dyn(f.Val) == type[[]*Filter] && (forall i int :: 0 <= i && i < len(children(f)) ==> children(f)[i] != nil && wtNow(children(f)[i], res)))
+//@   | && (f.Op == "in" ==> dyn(fieldVal(res, f.Field)) == type[string] && dyn(f.Val) == type[[]string])
+//@   | && (f.Op == "has" ==> dyn(fieldVal(res, f.Field)) == type[[]string] && dyn(f.Val) == type[string])
+//@   | && (isCmp(f.Op) ==> dyn(fieldVal(res, f.Field)) == dyn(f.Val) && dyn(f.Val) != type[[]string])
+
+//@ spec allowedDef(f *Filter, res Resource) = ite(f.Op == "and", forall i int :: 0 <= i && i < len(children(f)) ==> allowedNow(children(f)[i], res),
+//@   | ite(f.Op == "or", exists i int :: 0 <= i && i < len(children(f)) && allowedNow(children(f)[i], res),
+//@   | ite(f.Op == "in", inSlice(str(fieldVal(res, f.Field)), sl(f.Val)),
+//@   | ite(f.Op == "has", inSlice(str(f.Val), sl(fieldVal(res, f.Field))),
+//@   | cmpSem(f.Op, fieldVal(res, f.Field), f.Val)))))
+
+//@ func Filter.IsAllowed
+//@ props C10 C09
+//@ requires wt: wtNow(f, res)
+//@ assume wt-unfold: wtNow(f, res) ==> wtDef(f, res)
+//@ assume allowed-unfold: allowedNow(f, res) == allowedDef(f, res)
+//@ ensures sem-and: f.Op == "and" ==> result == allowedNow(f, res)
+//@ ensures sem-or: f.Op == "or" ==> result == allowedNow(f, res)
+//@ ensures sem-in: f.Op == "in" ==> result == allowedNow(f, res)
+//@ ensures sem-has: f.Op == "has" ==> result == allowedNow(f, res)
+//@ ensures and: f.Op == "and" ==> result == (forall i int :: 0 <= i && i < len(children(f)) ==> allowedNow(children(f)[i], res))
+//@ ensures or: f.Op == "or" ==> result == (exists i int :: 0 <= i && i < len(children(f)) && allowedNow(children(f)[i], res))
+//@ ensures in: f.Op == "in" ==> result == inSlice(str(fieldVal(res, f.Field)), sl(f.Val))
+//@ ensures has: f.Op == "has" ==> result == inSlice(str(f.Val), sl(fieldVal(res, f.Field)))
+//@ loop 0 invariant all-so-far: forall k int :: 0 <= k && k <= $idx ==> allowedNow(filters[k], res)
+//@ loop 1 invariant none-so-far: forall k int :: 0 <= k && k <= $idx ==> !allowedNow(filters#1[k], res)
